@@ -30,8 +30,9 @@ Australia/Lord_Howe} (TZ is switched with os.environ + time.tzset() inside forke
   clause notation-no-raw-newline    b"\\n" not in format_notation(v) (no leaf but strings / map keys contains a newline)
 Sites are "<function>:<leaf kind>"; for the binary family an independent reference encoder decides whether the formatter
 ("format_binary:...") or the parser ("parse_binary:..." / "unzip_llsd:..." / "BinaryLLSD.deserialize:...") is to blame.
-An exception in a nested tree is attributed to the leaves of that tree which fail on their own with the same codec;
-otherwise to "<function>:nested".
+An exception in a nested tree is attributed to the leaves of that tree which fail on their own with the same codec and
+stage; otherwise to "<function>:nested:<shape of the smallest subtree that still fails>".  When the XML/notation parser
+rejects a date whose formatted text is not an LLSD date (YYYY-MM-DDTHH:MM:SS[.f]Z) the site is the formatter.
 
 DATE MICROSECONDS (family "us").  The tree alphabet only uses microsecond values that are exact in binary; the sub-second
 digits are swept separately: every microsecond value 0..999_999 (quick: 0..19_999) of one naive-UTC date through
@@ -41,12 +42,15 @@ Deviations from DESIGN: (1) the reference for *what the value is* is a tagged ca
 Python objects (`uri("x") == "x"`, `True == 1` would hide type loss).  (2) map keys containing a newline are reported under
 their own site `format_notation:map-key` (the statement says "string value"; whether a key counts is flagged in the report).
 (3) inject_message is only exercised when serialize() itself succeeds (otherwise there is no serializer output to compare).
+(4) value rows are built from msggen's primitives under one fixed LLUDP header (the header is not part of the LLSD form), so
+msggen's header cycling / zero-coding twin rows do not multiply identical LLSD cases.
 """
 from __future__ import annotations
 
 import datetime
 import multiprocessing as mp
 import os
+import re
 import struct
 import time
 import uuid as std_uuid
@@ -197,7 +201,6 @@ for _name, (_k, _b, _e) in LEAVES.items():  # the alphabet's own consistency (da
         assert canon(_v) == _e, (_name, canon(_v), _e)
 
 KEYS = ["a", "", "ключ ✓", "k'q\"\\", "sp ace", "<k>&", "line\nfeed"]
-NEWLINE_KEYS = {k for k in KEYS if "\n" in k}
 
 # A tree spec is JSON-able: ["L", leaf name] | ["A", [spec, ...]] | ["M", [[key, spec], ...]]
 
@@ -216,7 +219,7 @@ def expected(spec):
     t = spec[0]
     if t == "L":
         kind, _, exp = LEAVES[spec[1]]
-        return ("leaf", kind, exp)
+        return ("leaf", kind, exp, spec[1])
     if t == "A":
         return ("array", [expected(c) for c in spec[1]])
     return ("map", {k: expected(c) for k, c in spec[1]})
@@ -246,33 +249,35 @@ def keys_of(spec) -> List[str]:
     return [k for k, _ in spec[1]] + [n for _, c in spec[1] for n in keys_of(c)]
 
 
-def diff(exp, got, kind="container", path="$"):
-    """yield (clause, kind, path, detail) for every difference between expected tree and canonical parsed value."""
+def diff(exp, got, kind="container", path="$", leaf=None):
+    """yield (clause, kind, path, detail, leaf name or None) for every difference between expected tree and parsed value."""
     if exp[0] == "leaf":
-        yield from diff(exp[2], got, exp[1], path)
+        yield from diff(exp[2], got, exp[1], path, exp[3])
         return
     if exp[0] != got[0]:
-        yield ("llsd-type-preserved", kind, path, f"expected LLSD {exp[0]} {_short(exp)}, parsed {got[0]} {_short(got)}")
+        yield ("llsd-type-preserved", kind, path, f"expected LLSD {exp[0]} {_short(exp)}, parsed {got[0]} {_short(got)}", leaf)
         return
     if exp[0] == "array":
         if len(exp[1]) != len(got[1]):
-            yield ("llsd-value-preserved", kind if kind != "container" else "array-length", path, f"array of {len(exp[1])} parsed as array of {len(got[1])}")
+            yield ("llsd-value-preserved", kind if kind != "container" else "array-length", path,
+                   f"array of {len(exp[1])} parsed as array of {len(got[1])}", leaf)
             return
         for i, (e, g) in enumerate(zip(exp[1], got[1])):
-            yield from diff(e, g, kind, f"{path}[{i}]")
+            yield from diff(e, g, kind, f"{path}[{i}]", leaf)
         return
     if exp[0] == "map":
         if set(exp[1]) != set(got[1]):
-            yield ("llsd-value-preserved", "map-keys", path, f"map keys {sorted(exp[1])!r} parsed as {sorted(map(repr, got[1]))!r}")
+            yield ("llsd-value-preserved", "map-keys", path, f"map keys {sorted(exp[1])!r} parsed as {sorted(map(repr, got[1]))!r}", leaf)
             return
         for k in exp[1]:
-            yield from diff(exp[1][k], got[1][k], kind, f"{path}[{k!r}]")
+            yield from diff(exp[1][k], got[1][k], kind, f"{path}[{k!r}]", leaf)
         return
     if exp != got:
         if exp[0] == "date":
-            yield ("llsd-date-instant", kind, path, f"expected instant {exp[1]} us since epoch, parsed {got[1]} (off by {(got[1] - exp[1]) / 1e6} s)")
+            yield ("llsd-date-instant", kind, path,
+                   f"expected instant {exp[1]} us since epoch, parsed {got[1]} (off by {(got[1] - exp[1]) / 1e6} s)", leaf)
         else:
-            yield ("llsd-value-preserved", kind, path, f"expected {_short(exp)}, parsed {_short(got)}")
+            yield ("llsd-value-preserved", kind, path, f"expected {_short(exp)}, parsed {_short(got)}", leaf)
 
 
 def _short(c) -> str:
@@ -318,8 +323,6 @@ def ref_binary(c) -> bytes:
 # The codecs under test
 # =====================================================================================================================
 SENTINEL = 0xA5
-_PARSER_SITE = {"binary+header": "parse_binary", "binary": "parse_binary", "zip": "unzip_llsd", "BinaryLLSD": "BinaryLLSD.deserialize",
-                "notation": "notation", "xml": "xml"}
 
 
 def run_codec(codec: str, value):
@@ -390,6 +393,11 @@ def _leaf_outcome(codec: str, name: str):
 
 def check_tree(part: Part, tz: str, codec: str, spec, count=True):
     witness = {"family": "tree", "tz": tz, "codec": codec, "tree": spec}
+    if codec == "xml" and any(LEAVES[n][0] == "string-CR" for n in leaves_of(spec)):
+        # XML 1.0 line-end normalisation turns a literal CR into LF in *any* conforming parser; strings carrying a CR
+        # are outside the XML route's domain (the codec sentence of the statement names binary and notation).
+        part.count("skipped_xml_cr_out_of_domain")
+        return
     if count:
         part.count("evaluations")
         part.count("tree_evaluations")
@@ -411,16 +419,22 @@ def check_tree(part: Part, tz: str, codec: str, spec, count=True):
         part.outcome(("tree", codec, "parse-raises", type(e).__name__))
         return
     if framing:
-        part.violation("binaryllsd-framing", "BinaryLLSD.deserialize:" + _shape(spec), witness, f"tz={tz}: {framing}")
+        small = _minimal(spec, lambda t: _framing_of(codec, t) is not None)
+        part.violation("binaryllsd-framing", "BinaryLLSD.deserialize:" + _shape(small, kinds=small[0] == "L"), witness,
+                       f"tz={tz}: {framing} (smallest subtree with the problem: {small!r})")
     got_c = canon(got)
     n_diff = 0
-    for clause, kind, path, detail in diff(exp, got_c):
+    for clause, kind, path, detail, leaf in diff(exp, got_c):
         n_diff += 1
         if codec in ("notation", "xml"):
             site = f"{codec}:{kind}"  # round trip through the dependency's parser; side not decided
         else:
+            # the independent reference encoder decides which side is to blame: per leaf when the difference is in a leaf
             try:
-                fmt_ok = raw == ref_binary(exp_c)
+                if leaf is not None:
+                    fmt_ok = _format_only("binary", LEAVES[leaf][1]()) == ref_binary(LEAVES[leaf][2])
+                else:
+                    fmt_ok = raw == ref_binary(exp_c)
             except Exception:
                 fmt_ok = True
             site = (f"{_PARSE_SITE[codec]}:{kind}" if fmt_ok else f"format_binary:{kind}")
@@ -429,23 +443,85 @@ def check_tree(part: Part, tz: str, codec: str, spec, count=True):
     part.mark_nontrivial(("tree", tz, codec, _shape(spec), tuple(sorted({LEAVES[n][0] for n in leaves_of(spec)}))))
 
 
-def _shape(spec) -> str:
+def _shape(spec, kinds=False) -> str:
     if spec[0] == "L":
-        return "leaf"
+        return LEAVES[spec[1]][0] if kinds else "leaf"
     if spec[0] == "A":
-        return "A[" + ",".join(_shape(c) for c in spec[1]) + "]"
-    return "M{" + ",".join(_shape(c) for _, c in spec[1]) + "}"
+        return "A[" + ",".join(_shape(c, kinds) for c in spec[1]) + "]"
+    return "M{" + ",".join(_shape(c, kinds) for _, c in spec[1]) + "}"
+
+
+def _children(spec):
+    if spec[0] == "A":
+        return list(spec[1])
+    if spec[0] == "M":
+        return [c for _, c in spec[1]]
+    return []
+
+
+def _minimal(spec, fails):
+    """Smallest subtree (following children that still fail on their own) -- keeps nested sites few and specific."""
+    while True:
+        for c in _children(spec):
+            if fails(c):
+                spec = c
+                break
+        else:
+            if spec[0] == "M" and len(spec[1]) > 1:  # a 2-entry map whose single entries pass: try each entry alone
+                for kv in spec[1]:
+                    if fails(["M", [kv]]):
+                        spec = ["M", [kv]]
+                        break
+                else:
+                    return spec
+                continue
+            if spec[0] == "A" and len(spec[1]) > 1:
+                for c in spec[1]:
+                    if fails(["A", [c]]):
+                        spec = ["A", [c]]
+                        break
+                else:
+                    return spec
+                continue
+            return spec
+
+
+def _framing_of(codec, spec):
+    try:
+        return run_codec(codec, build(spec))[2]
+    except Exception:
+        return None
+
+
+def _stage_of(codec, spec):
+    try:
+        _format_only(codec, build(spec))
+    except Exception:
+        return "format"
+    try:
+        run_codec(codec, build(spec))
+    except Exception:
+        return "parse"
+    return None
+
+
+_DATE_TEXT = re.compile(rb"""[>"]\d{4}-\d{2}-\d{2}T\d{2}:\d{2}:\d{2}(\.\d+)?Z["<]""")
 
 
 def _attribute_exception(part: Part, codec: str, spec, witness, stage: str, exc: Exception):
     fn = _FORMAT_SITE[codec] if stage == "format" else _PARSE_SITE[codec]
     detail = f"tz={witness['tz']} codec={codec}: {stage} raised {type(exc).__name__}: {str(exc)[:200]}"
-    if spec[0] == "L":
-        part.violation("llsd-roundtrip-completes", f"{fn}:{LEAVES[spec[1]][0]}", witness, detail)
-        return
     culprits = sorted({LEAVES[n][0] for n in set(leaves_of(spec)) if _leaf_outcome(codec, n) == stage})
+    if stage == "parse" and codec in ("notation", "xml") and culprits and all(k.startswith("date") for k in culprits):
+        # the parser rejects what the formatter wrote: if that text is not an LLSD date (YYYY-MM-DDTHH:MM:SS[.f]Z) the formatter is the site
+        bad_fmt = [n for n in set(leaves_of(spec)) if LEAVES[n][0] in culprits and not _DATE_TEXT.search(_format_only(codec, LEAVES[n][1]()))]
+        if bad_fmt:
+            fn = _FORMAT_SITE[codec]
+            detail += f" -- formatter wrote {_format_only(codec, LEAVES[bad_fmt[0]][1]())[-60:]!r}"
     if not culprits:
-        part.violation("llsd-roundtrip-completes", f"{fn}:nested:{_shape(spec)}", witness, detail + " (every leaf of the tree passes on its own)")
+        small = _minimal(spec, lambda t: _stage_of(codec, t) == stage)
+        part.violation("llsd-roundtrip-completes", f"{fn}:nested:{_shape(small, kinds=small[0] == "L")}", witness,
+                       detail + f" (every leaf passes on its own; smallest failing subtree {small!r})")
     for k in culprits:
         part.violation("llsd-roundtrip-completes", f"{fn}:{k}", witness, detail)
 
@@ -458,6 +534,11 @@ def check_notation_newline(part: Part, spec, raw: bytes, witness):
     # by construction of LEAVES no other leaf kind carries one (binary is base64 in notation, no URI has one)
     str_nl = [n for n in leaves_of(spec) if LEAVES[n][0].startswith("string") and "\n" in LEAVES[n][2][1]]
     key_nl = [k for k in keys_of(spec) if "\n" in k]
+    if key_nl:
+        # The sentence speaks of string *values*; a newline inside a map key is outside its domain (lead's triage:
+        # not asserted, counted).  Such keys still take part in every round-trip clause.
+        part.count("skipped_newline_map_key_out_of_domain")
+        return
     # decide which of them actually leaks: format each alone
     leaked = False
     for n in sorted(set(str_nl)):
@@ -630,6 +711,31 @@ def _culprit_types(msg, vtypes, op: str) -> List[str]:
     return sorted(out)
 
 
+def _unpack_culprits(d: dict, vtypes) -> List[str]:
+    """Which template types make LLSDDataPacker.unpack raise for the values of this LLSD form (site attribution only)."""
+    out = set()
+    for bname, blist in d.get("body", {}).items():
+        for blk in blist:
+            for vname, val in blk.items():
+                t = vtypes.get((bname, vname))
+                if t in LLSDDataPacker.SPECS:
+                    try:
+                        LLSDDataPacker.unpack(val, t)
+                    except Exception:
+                        out.add(f"LLSDDataPacker:{t.name}")
+    return sorted(out)
+
+
+_HDR = {"flags": 0, "packet_id": 1, "acks": (), "extra": b""}  # the LLUDP header is not part of the LLSD form
+
+
+def value_rows(gen: msggen.Gen, name: str):
+    """msggen's value rows (row k = k-th alphabet element of every variable) under one fixed header."""
+    tmpl = gen.templates[name]
+    for k in range(gen.n_rows(tmpl)):
+        yield {"name": name, **_HDR, "blocks": gen.blocks(tmpl, k, {}), "tag": f"row{k}"}
+
+
 _EQ = None
 
 
@@ -674,7 +780,8 @@ def check_msg_case(part: Part, gen: msggen.Gen, case: dict, ser: LLSDMessageSeri
     try:
         m2 = ser.deserialize(d)
     except Exception as e:
-        part.violation("msg-llsd-roundtrip", f"dict:{name}:deserialize", witness, f"deserialize(dict) raised {type(e).__name__}: {e}")
+        for site in _unpack_culprits(d, vtypes) or [f"dict:{name}:deserialize"]:
+            part.violation("msg-llsd-roundtrip", site, witness, f"deserialize(dict) raised {type(e).__name__}: {e}")
     else:
         dict_ok = compare_msg(part, "msg-llsd-roundtrip", "dict", m2, case, exp_blocks, vtypes, witness)
     # ---- XML route (only attributed separately when the dict route is clean: otherwise the same root cause)
@@ -753,7 +860,7 @@ def _work(unit):
         for name in unit[1]:
             vtypes = _var_types(name)
             n = 0
-            for c in gen.value_rows(name, header_cycle=[msggen.HEADER_EACH_CHOICE[0]]):
+            for c in value_rows(gen, name):
                 check_msg_case(part, gen, c, ser, vtypes, de_udp)
                 if n == 1:
                     part.sample({"family": "msg", **msggen.case_summary(c)}, limit=1)
